@@ -192,3 +192,48 @@ def pmap(fn, jobs, nproc=None):
     ctx = mp.get_context('fork')
     with ctx.Pool(nproc, maxtasksperchild=1) as pool:
         return pool.map(fn, jobs, chunksize=1)
+
+
+def decide_job(group, obligations, assumptions=(), timeout_ms=60000, sample_names=(), extra=None, tactic='qfnra-nlsat'):
+    """worker-side: discharge [(name, lhs, rhs)] identities (or (name, [constraints]) raw obligations);
+    returns plain data for Run.absorb_job"""
+    from .solve import Batch
+    b = Batch(tactic=tactic, timeout_ms=timeout_ms, assumptions=assumptions)
+    for ob in obligations:
+        if len(ob) == 3:
+            b.add_identity(ob[0], ob[1], ob[2])
+        else:
+            b.add_unsat(ob[0], ob[1])
+    b.run()
+    out = {'group': group, 'n': len(b.results), 'unsat': 0, 'sat': [], 'unknown': [], 'solver_s': b.solver_s,
+           'queries': b.queries, 'samples': [], 'extra': extra or {}}
+    for r in b.results:
+        if r.verdict == 'unsat':
+            out['unsat'] += 1
+        elif r.verdict == 'sat':
+            out['sat'].append({'name': r.name, 'model': r.model})
+        else:
+            out['unknown'].append({'name': r.name, 'info': str(r.info)[:200]})
+    for r in b.results[:2]:
+        out['samples'].append({'obligation': '%s :: %s' % (group, r.name), 'verdict': r.verdict, 'ms': round(r.ms, 2)})
+    return out
+
+
+def _absorb_job(self, res):
+    g = self.groups.setdefault(res['group'], {'obligations': 0, 'discharged': 0, 'sat': 0, 'unknown': 0})
+    g['obligations'] += res['n']
+    g['discharged'] += res['unsat']
+    g['sat'] += len(res['sat'])
+    g['unknown'] += len(res['unknown'])
+    self.obligations += res['n']
+    self.discharged += res['unsat']
+    self.solver_s += res['solver_s']
+    self.queries += res['queries']
+    for u in res['unknown']:
+        self.inconclusive.append({'name': '%s :: %s' % (res['group'], u['name']), 'info': u['info']})
+    for s in res['samples'][:1]:
+        self.sample(s)
+    return res['sat']
+
+
+Run.absorb_job = _absorb_job
